@@ -48,7 +48,7 @@ inductive NStep | passNonProvisional | register | collect | returnCollected
 deriving Repr, DecidableEq
 inductive GStep
   | loadDeps (isProduct : Bool) | loadProds (isProduct needsParam : Bool) | call | parseDefined (raisesIfNone : Bool)
-  | collectEach | raiseOnCollectFail | extendTasks | modifyTasks | recreate (c : RCond) | ret (v : Bool)
+  | collectEach | raiseOnCollectFail | raiseOnNameClash | extendTasks | modifyTasks | recreate (c : RCond) | ret (v : Bool)
 deriving Repr, DecidableEq
 inductive TStep | setDag | renewSkipMarks | renewFailMarks | setScheduler
 deriving Repr, DecidableEq
@@ -310,6 +310,34 @@ def _is_raise_on_collect_fail(st: ast.For) -> bool:
     return exc is not None and _u(exc).startswith(f"{i}.exc_info")
 
 
+def _is_raise_on_name_clash(st: ast.For, sub) -> bool:
+    """6571c4f: `signatures = {t.signature for t in session.tasks}` … `for i in new_reports: if <collected task>: if i.node.signature
+    in signatures: raise ValueError(…); signatures.add(i.node.signature)` — a defined task with the signature of a task of the
+    session or of an earlier defined task makes the generator raise."""
+    if st.orelse or not isinstance(st.target, ast.Name) or len(st.body) != 1 or not isinstance(st.body[0], ast.If):
+        return False
+    i = st.target.id
+    outer = st.body[0]
+    if outer.orelse or f"{i}.outcome == CollectionOutcome.SUCCESS" not in _u(outer.test):
+        return False
+    inner = [x for x in outer.body if isinstance(x, ast.If)]
+    adds = [x for x in outer.body if isinstance(x, ast.Expr) and isinstance(x.value, ast.Call) and _u(x.value.func).endswith(".add")]
+    if len(inner) != 1 or len(adds) != 1 or len(outer.body) != 2 or outer.body.index(inner[0]) > outer.body.index(adds[0]):
+        return False
+    t = inner[0].test
+    if not (isinstance(t, ast.Compare) and isinstance(t.ops[0], ast.In) and _u(t.left) == f"{i}.node.signature"):
+        return False
+    setname = _u(t.comparators[0])
+    if _u(adds[0].value.func) != f"{setname}.add" or [_u(a) for a in adds[0].value.args] != [f"{i}.node.signature"]:
+        return False
+    if not any(isinstance(x, ast.Raise) for x in inner[0].body):
+        return False
+    init = sub.vars.get(setname)
+    if init is None or _u(init).replace(" ", "") not in ("{t.signaturefortinsession.tasks}", "{task.signaturefortaskinsession.tasks}"):
+        raise _err(f"pytask_execute_task (generators): the set of known signatures starts as {_u(init) if init is not None else None!r}")
+    return True
+
+
 def _gen_steps():
     fn = _top_func("provisional.py", "pytask_execute_task")
     top = [st for st in _body(fn)]
@@ -346,6 +374,11 @@ def _gen_steps():
                 if ("collectEach",) not in steps or ("extendTasks",) in steps:
                     raise _err(f"{where}: collection errors are raised at an unexpected place")
                 steps.append(("raiseOnCollectFail",))
+                continue
+            if _is_raise_on_name_clash(st, sub):
+                if ("collectEach",) not in steps or ("extendTasks",) in steps:
+                    raise _err(f"{where}: name clashes are raised at an unexpected place")
+                steps.append(("raiseOnNameClash",))
                 continue
             raise _err(f"{where}: unrecognised loop {src[:100]!r}")
         if isinstance(st, ast.Expr) and isinstance(st.value, ast.Call):
@@ -412,19 +445,37 @@ def _gen_steps():
 
 
 def _check_renew_skip_marks():
+    """`_skip_descendants_of_skipped_tasks` (0574d89, fd3daac): attaches only `skip` marks, and only below tasks that were
+    reported SKIP or carry a `skip` / true `skipif` marker. M7 has neither (see the header of Provisional.lean): a no-op there."""
     fn = _top_func("provisional_utils.py", "_skip_descendants_of_skipped_tasks")
     loops = [st for st in _body(fn) if isinstance(st, ast.For)]
     if len(loops) != 1 or any(not _no_effect(st) for st in _body(fn) if st is not loops[0]):
-        raise _err("_skip_descendants_of_skipped_tasks: expected one loop over the execution reports")
+        raise _err("_skip_descendants_of_skipped_tasks: expected one loop")
     lp = loops[0]
-    if _u(lp.iter) != "session.execution_reports" or not isinstance(lp.target, ast.Name):
+    if not isinstance(lp.target, ast.Name):
+        raise _err("_skip_descendants_of_skipped_tasks: unrecognised loop target")
+    if _u(lp.iter) == "session.execution_reports":
+        r = lp.target.id
+        first = lp.body[0] if lp.body else None
+        ok = isinstance(first, ast.If) and _u(first.test) == f"{r}.outcome != TaskOutcome.SKIP" and len(first.body) == 1 and \
+            isinstance(first.body[0], ast.Continue) and not first.orelse
+        if not ok:
+            raise _err("_skip_descendants_of_skipped_tasks: does not skip reports whose outcome is not SKIP")
+    elif _u(lp.iter) == "_skipped_tasks(session)":
+        src = _top_func("provisional_utils.py", "_skipped_tasks")
+
+        def guarded(node, guards):
+            for ch in ast.iter_child_nodes(node):
+                if isinstance(ch, (ast.Yield, ast.YieldFrom)):
+                    g = " & ".join(guards)
+                    if not ("TaskOutcome.SKIP" in g and "==" in g or "has_mark(task, 'skip')" in g):
+                        raise _err(f"_skipped_tasks: yields a task under {g!r}")
+                guarded(ch, guards + [_u(ch.test)] if isinstance(ch, ast.If) else guards)
+        guarded(src, [])
+        if not any(isinstance(n, (ast.Yield, ast.YieldFrom)) for n in ast.walk(src)):
+            raise _err("_skipped_tasks: no yield")
+    else:
         raise _err(f"_skip_descendants_of_skipped_tasks: loops over {_u(lp.iter)!r}")
-    r = lp.target.id
-    first = lp.body[0] if lp.body else None
-    ok = isinstance(first, ast.If) and _u(first.test) == f"{r}.outcome != TaskOutcome.SKIP" and len(first.body) == 1 and \
-        isinstance(first.body[0], ast.Continue) and not first.orelse
-    if not ok:
-        raise _err("_skip_descendants_of_skipped_tasks: does not skip reports whose outcome is not SKIP")
     for n in ast.walk(lp):
         if isinstance(n, ast.Attribute) and isinstance(n.ctx, ast.Store):
             raise _err("_skip_descendants_of_skipped_tasks: stores to an attribute")
